@@ -202,6 +202,8 @@ func (v *inputFieldDefaultInjectionVisitor) jsonWalker(fieldType int, defaultVal
 		if err != nil {
 			return
 		}
+		// every element advances the index, also a null (or mismatching) item that is left as it is
+		defer func() { i++ }()
 		if listOfList && dataType == jsonparser.Array {
 			newVal, replaced, err := v.processObjectOrListInput(typeDoc.Types[fieldType].OfType, value, typeDoc)
 			if err != nil {
@@ -231,7 +233,6 @@ func (v *inputFieldDefaultInjectionVisitor) jsonWalker(fieldType int, defaultVal
 		} else {
 			return
 		}
-		i++
 	}
 
 }
